@@ -54,9 +54,10 @@ type SchedCfg struct {
 }
 
 type Stall struct {
-	T   int `json:"t"`
-	At  int `json:"at"`
-	For int `json:"for"`
+	T      int `json:"t"`
+	At     int `json:"at"`
+	For    int `json:"for"`
+	AfterW int `json:"after_w,omitempty"`
 }
 
 // Case is the replay document: the explicit decisions of one run, not the seed that
